@@ -24,7 +24,7 @@ import itertools
 from qstatic.alg import Poly, P, UNKNOWN, is_unknown
 from qstatic.dom_nc import QM, fro_atom
 from qstatic.interp import Instance, RepoRaise, ModelError, NeedChoice
-from .common_nc import new_nc, cond_parts, cond_atoms
+from .common_nc import new_nc, cond_canon as cond_parts, cond_atoms
 from .common import run_guarded, short
 
 LEVEL = "other"
